@@ -915,4 +915,190 @@ theorem setXY_vecs (T : Tables) (w : World) (i n : Nat) (x y : Int) (obs : List 
   unfold step
   simp only [Op.target, hget, ha]
   simp
+/-! ## the snapshot is touched only by enter / exit -/
+
+def bkWrite : Ev → Bool
+  | .backupCopy _ _ | .backupNone => true
+  | _ => false
+
+def noBkWrites (es : List GEv) : Bool := es.all fun ge => !bkWrite ge.e
+
+theorem applyEdit_backup' (cx : Ctx) (c : Cfg) : (applyEdit cx c).o.backup = c.o.backup := applyEdit_backup cx c
+
+theorem readKey_backup (T : Tables) (o : Obj) (k : String) (obs : List String) (opt : Bool) :
+    (readKey T o k obs opt).backup = o.backup := by
+  unfold readKey; split <;> rfl
+
+theorem stepEv_backup {T : Tables} {cx : Ctx} {opt : Bool} {c : Cfg} {e : Ev} (h : bkWrite e = false) :
+    (stepEv T cx opt c e).cfg.o.backup = c.o.backup := by
+  cases e with
+  | edit => simp [stepEv, Res.cfg, applyEdit_backup]
+  | call f a => simp [stepEv, Res.cfg]
+  | flushAll => simp [stepEv, Res.cfg]
+  | flush a b =>
+    simp only [stepEv]
+    cases flagBool a <;> cases flagBool b <;> cases opt <;> simp [Res.cfg]
+  | pop k => simp only [stepEv]; split <;> rfl
+  | dictSet k => simp [stepEv, Res.cfg, readKey_backup]
+  | readC k => simp [stepEv, Res.cfg, readKey_backup]
+  | changedAdd =>
+    simp only [stepEv]
+    split
+    · rfl
+    · split <;> rfl
+  | changedDiscard => simp only [stepEv]; split <;> rfl
+  | changedNone => simp [stepEv, Res.cfg]
+  | changedRead => simp only [stepEv]; split <;> rfl
+  | backupRead => simp only [stepEv]; split <;> rfl
+  | backupCopy a b => simp [bkWrite] at h
+  | backupNone => simp [bkWrite] at h
+  | restore slots => simp only [stepEv]; split <;> rfl
+  | hcalc =>
+    simp only [stepEv]
+    split
+    · rfl
+    · split <;> (split <;> rfl)
+  | labelsWrite => simp [stepEv, Res.cfg]
+  | stereoWrite => simp [stepEv, Res.cfg]
+
+theorem interp_backup {T : Tables} {cx : Ctx} :
+    ∀ (es : List GEv) (c : Cfg), noBkWrites es = true → (interp T cx es c).cfg.o.backup = c.o.backup := by
+  intro es
+  induction es with
+  | nil => intro c _; rfl
+  | cons ge rest ih =>
+    intro c h
+    simp only [noBkWrites, List.all_cons, Bool.and_eq_true, Bool.not_eq_true'] at h
+    simp only [interp]
+    split
+    · rfl
+    · exact ih c (by simpa [noBkWrites] using h.2)
+    · rename_i opt _
+      have hb := stepEv_backup (T := T) (cx := cx) (opt := opt) (c := c) h.1
+      split
+      · rename_i c' heq
+        rw [heq] at hb
+        rw [ih c' (by simpa [noBkWrites] using h.2)]
+        exact hb
+      · rename_i c' e' heq
+        rw [heq] at hb
+        exact hb
+
+theorem runFn_backup {T : Tables} {w : World} {i : Nat} {o o0 : Obj} {cx : Ctx} {f : String} {env : List (String × Bool)}
+    (hno : noBkWrites (expand T.fns expandFuel f env) = true) (hget : w.objs[i]? = some o0) :
+    ∃ o', (runFn T w i o cx f env).w.objs[i]? = some o' ∧ o'.backup = o.backup := by
+  have hb := interp_backup (T := T) (cx := cx) _ { o := o, vecs := w.vecs } hno
+  unfold runFn
+  split
+  · rename_i c heq
+    rw [heq] at hb
+    exact ⟨c.o, getElem?_setObj_self _ hget, hb⟩
+  · rename_i c e heq
+    rw [heq] at hb
+    exact ⟨c.o, getElem?_setObj_self _ hget, hb⟩
+
+def txnFree (i : Nat) : Op → Bool
+  | .enter o | .exitOk o | .exitExc o => o != i
+  | _ => true
+
+theorem getElem?_setObj_self' {w : World} {i : Nat} {o o' : Obj} (h : w.objs[i]? = some o) :
+    (setObj w i o').objs[i]? = some o' := getElem?_setObj_self w.vecs h
+
+/-- inside a transaction on object `i`, nothing but `__enter__`/`__exit__` of that object touches its snapshot -/
+theorem step_backup_current (w : World) (op : Op) (obs : List String) (i : Nat) (o : Obj) (hget : w.objs[i]? = some o)
+    (hfree : txnFree i op = true) :
+    ∃ o', (step current w op obs).w.objs[i]? = some o' ∧ o'.backup = o.backup := by
+  have hlt : i < w.objs.length := by
+    rcases Nat.lt_or_ge i w.objs.length with hl | hl
+    · exact hl
+    · rw [List.getElem?_eq_none hl] at hget; cases hget
+  by_cases hti : i = op.target
+  · subst hti
+    unfold step
+    simp only [hget]
+    cases op with
+    | addAtom oi z n skip =>
+      simp only; split
+      · exact ⟨o, hget, rfl⟩
+      · exact runFn_backup (by decide +kernel) hget
+    | addBond oi a b order skip =>
+      simp only; split
+      · exact ⟨o, hget, rfl⟩
+      · exact runFn_backup (by decide +kernel) hget
+    | delAtom oi n skip =>
+      simp only; split
+      · exact ⟨o, hget, rfl⟩
+      · exact runFn_backup (by decide +kernel) hget
+    | delBond oi a b skip =>
+      simp only; split
+      · exact ⟨o, hget, rfl⟩
+      · exact runFn_backup (by decide +kernel) hget
+    | remap oi mp =>
+      simp only; split
+      · exact ⟨o, hget, rfl⟩
+      · exact runFn_backup (by decide +kernel) hget
+    | copy oi kS kC =>
+      have ht : (Op.copy oi kS kC).target = oi := rfl
+      rw [ht] at hget hlt ⊢
+      simp only; split
+      · exact ⟨o, hget, rfl⟩
+      · exact ⟨o, by simp only; rw [getElem?_append_lt _ _ _ hlt]; exact hget, rfl⟩
+    | substructure oi atoms recalc =>
+      have ht : (Op.substructure oi atoms recalc).target = oi := rfl
+      rw [ht] at hget hlt ⊢
+      have hj' : oi ≠ w.objs.length := Nat.ne_of_lt hlt
+      simp only
+      split; · exact ⟨o, hget, rfl⟩
+      split; · exact ⟨o, hget, rfl⟩
+      split; · exact ⟨o, hget, rfl⟩
+      split; · exact ⟨o, hget, rfl⟩
+      split
+      · refine ⟨o, ?_, rfl⟩
+        simp only
+        rw [runFn_frame _ _ _ _ _ _ _ _ hj', runFn_frame _ _ _ _ _ _ _ _ hj', getElem?_append_lt _ _ _ hlt]
+        exact hget
+      · refine ⟨o, ?_, rfl⟩
+        simp only
+        rw [runFn_frame _ _ _ _ _ _ _ _ hj', getElem?_append_lt _ _ _ hlt]
+        exact hget
+    | union oi p rmp cp =>
+      have ht : (Op.union oi p rmp cp).target = oi := rfl
+      rw [ht] at hget hlt ⊢
+      simp only
+      split; · exact ⟨o, hget, rfl⟩
+      split; · exact ⟨o, hget, rfl⟩
+      split; · exact ⟨o, hget, rfl⟩
+      split
+      · exact ⟨o, by simp only; rw [getElem?_append_lt _ _ _ hlt]; exact hget, rfl⟩
+      · cases rmp
+        · exact runFn_backup (w := { w with vecs := _ }) (by decide +kernel) hget
+        · exact runFn_backup (w := { w with vecs := _ }) (by decide +kernel) hget
+    | fixStructure oi r =>
+      cases r
+      · exact runFn_backup (by decide +kernel) hget
+      · exact runFn_backup (by decide +kernel) hget
+    | calcLabels oi => exact runFn_backup (by decide +kernel) hget
+    | fixStereo oi => exact runFn_backup (by decide +kernel) hget
+    | cleanStereo oi => exact runFn_backup (by decide +kernel) hget
+    | flush oi kS kC => exact ⟨_, getElem?_setObj_self' hget, rfl⟩
+    | enter oi => simp [txnFree, Op.target] at hfree
+    | exitOk oi => simp [txnFree, Op.target] at hfree
+    | exitExc oi => simp [txnFree, Op.target] at hfree
+    | setCharge oi n c =>
+      simp only
+      split; · exact ⟨o, hget, rfl⟩
+      split; · exact ⟨o, hget, rfl⟩
+      exact ⟨_, getElem?_setObj_self' hget, rfl⟩
+    | setRadical oi n r =>
+      simp only
+      split; · exact ⟨o, hget, rfl⟩
+      exact ⟨_, getElem?_setObj_self' hget, rfl⟩
+    | setXY oi n x y =>
+      simp only
+      split <;> exact ⟨o, hget, rfl⟩
+    | setMeta oi k v => exact ⟨_, getElem?_setObj_self' hget, rfl⟩
+    | read oi k => exact ⟨_, getElem?_setObj_self' hget, readKey_backup _ _ _ _ _⟩
+  · refine ⟨o, ?_, rfl⟩
+    rw [step_frame current w op obs i hti hlt]
+    exact hget
 end ChythonModel.Proofs.C13
